@@ -22,7 +22,9 @@ RULE = ("for every (class, value, raw_value) case the harness builds v = Class(v
         "conversion, slicing, containment, codec, dict-key and sort use) and compares outcome and outcome type "
         "(or exception class); checks isinstance, raw_value presence and defaulting (incl. 0/False/''/b''), and "
         "copy/deepcopy/pickle protocols 0..5 for values and for whole parsed packets (items, order, raw bytes, "
-        "cursor). distinct_nontrivial = distinct (class, value category, raw category) signatures, where "
+        "cursor); a value object handed as the built-in to each compatible value class without a raw value must give the same "
+        "value and raw_value as the plain built-in; for parsed values of generated documents (half of them leaning on context "
+        "calibrators) the class must be the one the reference model derives from the parameter's definition. distinct_nontrivial = distinct (class, value category, raw category) signatures, where "
         "category distinguishes zero/falsy, negative, huge, nan, inf, empty, non-ASCII, NUL-containing, ordinary; "
         "(IntParameter, ordinary, none) is the trivial signature and is excluded.")
 ASSUMPTIONS = ["BoolParameter is int-backed; it is compared with bool for repr and with int(bool) for arithmetic, "
